@@ -92,7 +92,8 @@ def gen_lhs(rng, xs, w):
     wx = x.size()
     k = rng.random()
     const = lambda ww: claripy.BVV(rng.choice([0, 1, 2, 3, (1 << ww) - 1, 1 << (ww - 1), rng.randrange(1 << ww)]) & ((1 << ww) - 1), ww)  # noqa: E731
-    shapes = ["var", "add", "sub", "rsub", "extract", "extract0", "concat0", "concatc", "zext", "sext", "and", "shl", "if", "add2", "neg", "lshr", "mul"]
+    shapes = ["var", "add", "sub", "rsub", "extract", "extract0", "concat0", "concatc", "zext", "sext", "and", "shl", "if", "add2", "neg", "lshr", "mul",
+              "sub2", "sub2"]
     sh = rng.choice(shapes)
     if sh == "var":
         e = x
@@ -131,6 +132,11 @@ def gen_lhs(rng, xs, w):
         e = claripy.If(c, x + const(wx), const(wx)) if rng.random() < 0.5 else claripy.If(c, const(wx), x)
     elif sh == "add2" and len(xs) > 1 and xs[0].size() == xs[1].size():
         e = xs[0] + xs[1] + (const(wx) if rng.random() < 0.5 else 0)
+    elif sh == "sub2" and len(xs) > 1 and xs[0].size() == xs[1].size():
+        # two multi-valued operands of a subtraction (the balancer must not move the subtrahend across the comparison)
+        a, b = (xs[0], xs[1]) if rng.random() < 0.5 else (xs[1], xs[0])
+        e = rng.choice([lambda: a - b, lambda: a - b - const(wx), lambda: a - const(wx) - b, lambda: const(wx) - a - b,
+                        lambda: a + const(wx) - b, lambda: a - (b + const(wx))])()
     else:
         e = x
     # nest once more sometimes
